@@ -254,5 +254,6 @@ theorem WDom.handle {w : World} (h : WDom w) (v : Variant) (env : Env) (fail : L
   · exact h.updateTemplate env fail _ _ _
   · exact (h.tmplDelete _).note _
   · exact (h.of_store (boot_spec env fail w.store w.br).1).note _
+  · exact h.of_store (dieTask_store w _)
 
 end Kap.C14
